@@ -1,6 +1,8 @@
-(* C19: property theorems.  Statements only; every proof is `exact` of a lemma in Proofs/. *)
+(* C19 -- PeriodicDiskRevolve really is periodic, with a period independent of n
+   Property theorems only: each proof is one application of a lemma proved in Proofs/, followed by Print Assumptions. *)
 From Coq Require Import ZArith List Bool.
 From CS Require PeriodProofs.
+From CS Require Import Actions NAdvance Multistage Exec Sched RunFacts Projections BasicInv MultistageRun TLBridge.
 Import ListNotations.
 Open Scope Z_scope.
 
